@@ -11,6 +11,9 @@ import CookModel.Lemmas.RoundtripInter
 import CookModel.Lemmas.RoundtripStepX
 import CookModel.Lemmas.RoundtripBlock
 import CookModel.Lemmas.RoundtripInput
+import CookModel.Lemmas.RoundtripDoc
+import CookModel.Lemmas.RoundtripAnalysis
+import CookModel.Lemmas.RoundtripRecipe
 /-
   C01  Printing a recipe as Cooklang and parsing it returns that recipe.
 
@@ -735,5 +738,241 @@ theorem C01_well_spelled_next_none (cs : CharSpec) (a : List Tok) :
 /-- example: `@salt` is well spelled before `,` but not before `y` (the word would go on) -/
 example : wellSpelledNext toyCharSpec (some ',') (spellShortIngredient C01_exSalt) = true ∧
     wellSpelledNext toyCharSpec (some 'y') (spellShortIngredient C01_exSalt) = false := by decide
+
+/-! ### the document level: several blocks, multi-line steps -/
+
+/-- The block splitter on a document.  A token stream made of leading blank lines (`blankLinesOK`:
+    blank tokens ending with a newline) and then blocks, each followed by its separator (`docToks`),
+    where every block is a single `>>` / `=` line or a step of one or more lines none of which is
+    blank and none of which (after the first) starts with `>>` or `=` (`blockShape`), two blocks are
+    separated by a newline and at least one blank line — `\n\n`, or blank lines with spaces and
+    comments — and the last block is followed by nothing or a newline and blank material (`docOK`),
+    is split by `next_block` (`allBlocks`) into exactly those blocks, in order: nothing of a block
+    is lost, no separator token ends up in a block, two blocks are never merged. -/
+theorem C01_blocks_split (pre : List Tok) (ds : List (List Tok × List Tok)) (hpre : blankLinesOK pre = true)
+    (h : docOK ds = true) :
+    allBlocks ((pre ++ docToks ds).length + 1) (pre ++ docToks ds) = ds.map (·.1) :=
+  rtd_allBlocks_doc ds h pre (rtd_blankLinesOK_facts pre hpre)
+
+/-- Document level of the round trip.  A recipe text printed from `pre ++ docSpec doc` — leading
+    blank lines, then the items of `doc`: steps (`SegX` segment lists as in `C01_step_compose`,
+    on one or several lines: a text run may contain newline tokens as long as no line of the step
+    is blank or starts with `>>` / `=`), section lines, `>>` metadata lines, each satisfying the side
+    conditions of its layer (`DocItem.ok`), separated as in `C01_blocks_split` (`sepsOK`) — when
+    the printed token list is well spelled and the text has no front-matter fence, is read by the
+    whole pull parser (lexer, block splitter, `parse_block` on every block) as follows: the
+    splitter produces exactly one block per item, whose tokens spell the item; the event list is
+    the concatenation, in order, of the events of the items (`DocItemEvs`: `start step`, one event
+    per segment, `stop step`; one `section` event; one `metadata` event); no error, no warning, no
+    panic.  A soft line break inside a step shows as one space in the text event
+    (`C01_soft_break_is_space`).  This discharges the `partial` of `C01_input_step_line_partial`
+    for several blocks and multi-line steps; what remains outside is front matter (`---`) as the
+    metadata carrier. -/
+theorem C01_input_blocks {α : Type} [Arith α] (cs : CharSpec) (ext : Ext) (pre : List Tok)
+    (doc : List (DocItem × List Tok)) (hpre : blankLinesOK pre = true)
+    (hok : ∀ d ∈ doc, d.1.ok cs ext = true) (hseps : sepsOK (doc.map (·.2)) = true)
+    (hw : WellSpelled cs (pre ++ docSpec doc))
+    (hfm : parseFrontmatter cs (render (pre ++ docSpec doc)) = none) :
+    ∃ (blocks : List (List Tok)) (evss : List (List (Ev α))) (arr : Array (Ev α)),
+      allBlocks ((lex cs (render (pre ++ docSpec doc))).length + 1) (lex cs (render (pre ++ docSpec doc))) = blocks ∧
+      All2 (fun b (d : DocItem × List Tok) => Spells b d.1.spell) blocks doc ∧
+      pullEvents (α := α) cs ext (render (pre ++ docSpec doc)) = (arr, none) ∧
+      arr.toList = evss.flatten ∧
+      All2 (fun (d : DocItem × List Tok) evs => DocItemEvs cs d.1 evs) doc evss :=
+  rtd_pullEvents_doc cs ext pre doc hpre hok hseps hw hfm
+
+/-- a line break inside a step is shown as one space by `BlockParser::text` (the text of a run
+    is the concatenation of `vis` of its tokens, `SegXEv`) -/
+theorem C01_soft_break_is_space (t : Tok) (hk : t.kind = .newline) (hne : t.text ≠ []) : vis t = [' '] := by
+  simp [vis, hk, hne]
+
+/-! example: leading blank line, `>> prep time: 1 h 30 min`, `\n\n`, `== Main course == `, a blank line
+    with a comment, then the two-line step of `C01_exStepX`, a final newline -/
+def C01_nl : Tok := tk .newline ['\n']
+def C01_exDoc : List (DocItem × List Tok) :=
+  [(.metaLine [tk .word "prep".toList, tk .ws [' '], tk .word "time".toList]
+      [tk .int ['1'], tk .ws [' '], tk .word ['h'], tk .ws [' '], tk .int ['3', '0'], tk .ws [' '], tk .word "min".toList]
+      { a := [tk .ws [' ']], c := [tk .ws [' ']] }, [C01_nl, C01_nl]),
+   (.sectionLine (some [tk .word "Main".toList, tk .ws [' '], tk .word "course".toList]) C01_exSPad,
+      [C01_nl, tk .ws [' '], tk .lineComment "-- c".toList, C01_nl]),
+   (.step C01_exStepX, [C01_nl])]
+def C01_exDocPre : List Tok := [tk .ws [' '], C01_nl]
+
+example : blankLinesOK C01_exDocPre = true ∧ (∀ d ∈ C01_exDoc, d.1.ok toyCharSpec C01_timerExt = true) ∧
+    sepsOK (C01_exDoc.map (·.2)) = true := by decide
+example : WellSpelled toyCharSpec (C01_exDocPre ++ docSpec C01_exDoc) := by decide
+example : (parseFrontmatter toyCharSpec (render (C01_exDocPre ++ docSpec C01_exDoc))).isNone = true := by decide
+/-- the step of the example has two lines -/
+example : ((DocItem.step C01_exStepX).spell.filter (fun t => t.kind == .newline)).length = 1 := by decide
+/-- the conditions are needed: a blank line inside a step, a continuation line starting with `=`,
+    a single newline between two steps are rejected (the splitter would cut or merge differently) -/
+example : stepShape [tk .word ['a'], C01_nl, C01_nl, tk .word ['b']] = false := by decide
+example : stepShape [tk .word ['a'], C01_nl, tk .eq ['='], tk .word ['b']] = false := by decide
+example : stepShape [tk .word ['a'], C01_nl, tk .ws [' '], tk .eq ['='], tk .word ['b']] = true := by decide
+example : sepsOK [[C01_nl], []] = false ∧ sepsOK [[C01_nl, C01_nl], []] = true := by decide
+example : allBlocks 10 [⟨.word, ['a'], 0⟩, ⟨.newline, ['\n'], 1⟩, ⟨.word, ['b'], 2⟩] =
+    [[⟨.word, ['a'], 0⟩, ⟨.newline, ['\n'], 1⟩, ⟨.word, ['b'], 2⟩]] := by decide
+
+/-! ### the analysis layer: a simple recipe through `parse_events` -/
+
+/-- Analysis layer of the round trip.  A `SimpleRecipe` is a list of steps, each a non-empty list
+    of items as the parser delivers them: text, ingredient, cookware and timer events.  If every
+    component is a plain definition — no `&` (REF) and no `+` (NEW) modifier, no intermediate
+    reference, a scaling lock `=` only on a numeric ingredient amount (`SItem.Simple`) — and neither
+    ADVANCED_UNITS nor INLINE_QUANTITIES is on (default modes: the collector starts in
+    `define = all`, `duplicate = new`), then `RecipeCollector::parse_events` on the events
+    `start step, items…, stop step` of all steps returns exactly `expectedCol env r`:
+    * one unnamed section holding one step per block, in order, numbered 1, 2, … (`stepsFrom`);
+      the items of a step are its texts (verbatim, nothing split) and component indices, where the
+      index of a component is the number of components of its kind before it in the recipe;
+    * the ingredient / cookware / timer tables list exactly those components in source order
+      (`ingrOf`, `cwOf`, `timerOf`: names, aliases, notes trimmed; the written modifier flags; every
+      component a definition, `defined_in_step`, referenced from nowhere; a numeric ingredient amount
+      without lock `Linear`, every other amount `Fixed`; the unit trimmed), even when two components
+      have the same name (with `duplicate = new` a repeated name is a new definition);
+    * no inline quantities, no metadata, no section besides the implicit one;
+    and NO diagnostic at all (the diagnostics array is empty: no error, no warning), no panic. -/
+theorem C01_analysis_simple {α : Type} [Arith α] (env : Env) (input : Str)
+    (hadv : env.ext.has Gen.EXT_ADVANCED_UNITS = false) (hinl : env.ext.has Gen.EXT_INLINE_QUANTITIES = false)
+    (r : SimpleRecipe α) (hs : ∀ st ∈ r.steps, ∀ it ∈ st, it.Simple) (hne : ∀ st ∈ r.steps, st ≠ []) :
+    parseEvents env input r.events = ⟨some (expectedCol env r), #[], none⟩ :=
+  rta_parseEvents_simple env input hadv hinl r hs hne
+
+/-! example: two steps, `Add @salt{=1%tsp} to the #pot{}` / `~{10%min}` + text; the conditions hold, the
+    expected steps are numbered 1 and 2 and the second step's timer has index 0 -/
+def C01_toyEnv : Env := ⟨toyCharSpec, ⟨0⟩, fun _ => none, fun _ _ => .ok, fun c => [c], 0⟩
+def C01_txt (s : String) (off : Nat) : Text := ⟨[⟨s.toList, off, false⟩], off, false⟩
+def C01_exSalt1 : Loc (PIngredient Rat) :=
+  ⟨⟨⟨⟨0⟩, ⟨5, 5⟩⟩, none, C01_txt "salt" 5, none,
+    some ⟨⟨⟨⟨.number (.regular 1), ⟨11, 12⟩⟩, some ⟨10, 11⟩⟩, some (C01_txt "tsp" 13)⟩, ⟨10, 16⟩⟩, none⟩, ⟨4, 17⟩⟩
+def C01_exPot1 : Loc (PCookware Rat) := ⟨⟨⟨⟨0⟩, ⟨26, 26⟩⟩, C01_txt "pot" 26, none, none, none⟩, ⟨25, 31⟩⟩
+def C01_exTimer1 : Loc (PTimer Rat) :=
+  ⟨⟨none, some ⟨⟨⟨⟨.number (.regular 10), ⟨35, 37⟩⟩, none⟩, some (C01_txt "min" 38)⟩, ⟨35, 41⟩⟩⟩, ⟨33, 42⟩⟩
+def C01_exSimple : SimpleRecipe Rat :=
+  ⟨[[.text (C01_txt "Add " 0), .ingredient C01_exSalt1, .text (C01_txt " to the " 17), .cookware C01_exPot1],
+    [.timer C01_exTimer1, .text (C01_txt " wait" 42)]]⟩
+
+example : ∀ st ∈ C01_exSimple.steps, ∀ it ∈ st, it.Simple := by
+  have h1 : IngrSimple C01_exSalt1 := ⟨rfl, by decide, by intro q hq; cases hq; intro _; exact ⟨rfl, rfl⟩⟩
+  have h2 : CwSimple C01_exPot1 := ⟨by decide, by intro q hq; cases hq⟩
+  have h3 : TimerSimple C01_exTimer1 := ⟨by intro q hq; cases hq; intro h; cases h⟩
+  intro st hst it hit
+  simp only [C01_exSimple, List.mem_cons, List.not_mem_nil, or_false] at hst
+  rcases hst with rfl | rfl <;> simp only [List.mem_cons, List.not_mem_nil, or_false] at hit <;>
+    rcases hit with rfl | rfl | rfl | rfl <;> first | trivial | exact h1 | exact h2 | exact h3
+example : C01_toyEnv.ext.has Gen.EXT_ADVANCED_UNITS = false ∧ C01_toyEnv.ext.has Gen.EXT_INLINE_QUANTITIES = false := by
+  decide
+example : (expectedCol C01_toyEnv C01_exSimple).sections =
+    [⟨none, [.step ⟨[.text "Add ".toList, .ingredient 0, .text " to the ".toList, .cookware 0], 1⟩,
+             .step ⟨[.timer 0, .text " wait".toList], 2⟩]⟩] := by
+  simp [expectedCol, C01_exSimple, stepsFrom, itemsFrom, SItem.toItem, ingrsOf, cwsOf, timersOf, SItem.ingr?, SItem.cw?,
+    SItem.timer?, C01_txt, Text.text]
+/-- the locked numeric ingredient amount is `Fixed`; the conditions are needed: `&` makes the
+    component a reference, a lock on a cookware amount is a warning -/
+example : (ingrOf C01_toyEnv C01_exSalt1).quantity.map (·.value) = some (.fixed (.number (.regular 1))) := by
+  simp [ingrOf, C01_exSalt1, expQuantity, expValue, Value.isText]
+example : ¬ plainMods ⟨Modifiers.REF⟩ := by decide
+example : ¬ lockOK (α := Rat) ⟨⟨.number (.regular 1), ⟨0, 1⟩⟩, some ⟨0, 1⟩⟩ false := by
+  intro h; exact absurd (h rfl).1 (by decide)
+
+/-! ### end to end: print, lex, split, parse, analyse -/
+
+/-- The round trip for recipes made of steps, from the printed characters to the recipe.  `doc` is a
+    list of steps, each a list of segments (text runs — possibly over several lines — ingredients and
+    cookware in braces or single-word form, timers) with its separator; the printed text is
+    `render (pre ++ docSpec (stepsDoc doc))`.  Hypotheses: the side conditions of the syntax layers
+    (`DocItem.ok`, `sepsOK`, `blankLinesOK`, well-spelledness, no front-matter fence); every
+    component is a plain definition — neither `&` nor `+` among its modifiers, no intermediate
+    reference, `=` only on a numeric ingredient amount (`SegX.simple`); ADVANCED_UNITS and
+    INLINE_QUANTITIES are off (any other extension may be on).  Then `CooklangParser::parse`
+    (`parseRecipe`: pull parser + `parse_events`) returns a recipe and NO diagnostic, no panic, and
+    the recipe is the intended one, as a function of the abstract document:
+    * one unnamed section with one step per printed step, numbered 1, 2, …; the items of a step are,
+      segment by segment, the shown text of a run (a line break shows as a space, comments are
+      gone, escapes are resolved: `vis`) or the index of the component = number of components of
+      its kind printed before it (`absStepsFrom`);
+    * the ingredient, cookware and timer tables are the printed components in order with the
+      intended names, aliases, notes, modifier flags, amounts (`Linear` for a numeric ingredient
+      amount without `=`, else `Fixed`) and units (`absIngr`, `absCw`, `absTimer`);
+    * no inline quantity, no metadata entry.
+    Outside this theorem (tested only): references (`&`, or duplicate = reference mode), intermediate
+    references, sections and metadata through the analysis pass, the two extensions above. -/
+theorem C01_recipe_steps {α : Type} [Arith α] (env : Env) (pre : List Tok) (doc : List (List SegX × List Tok))
+    (hadv : env.ext.has Gen.EXT_ADVANCED_UNITS = false) (hinl : env.ext.has Gen.EXT_INLINE_QUANTITIES = false)
+    (hpre : blankLinesOK pre = true) (hok : ∀ d ∈ doc, (DocItem.step d.1).ok env.cs env.ext = true)
+    (hsimple : ∀ d ∈ doc, d.1.all SegX.simple = true) (hseps : sepsOK (doc.map (·.2)) = true)
+    (hw : WellSpelled env.cs (pre ++ docSpec (stepsDoc doc)))
+    (hfm : parseFrontmatter env.cs (render (pre ++ docSpec (stepsDoc doc))) = none) :
+    ∃ c : Col α,
+      parseRecipe env (render (pre ++ docSpec (stepsDoc doc))) = ⟨some c, #[], none⟩ ∧
+      c.sections = (if doc.isEmpty then [] else [⟨none, absStepsFrom [] 1 (doc.map (·.1))⟩]) ∧
+      c.ingredients.toList = ((doc.map (·.1)).flatten.filterMap SegX.ingr?).map absIngr ∧
+      c.cookware.toList = ((doc.map (·.1)).flatten.filterMap SegX.cw?).map absCw ∧
+      c.timers.toList = ((doc.map (·.1)).flatten.filterMap SegX.timer?).map absTimer ∧
+      c.inlineQ = #[] ∧ c.metaMap = [] := by
+  obtain ⟨r, h1, h2⟩ := rtr_parseRecipe_steps (α := α) env pre doc hadv hinl hpre hok hsimple hseps hw hfm
+  obtain ⟨e1, e2, e3, e4⟩ := rtr_expectedCol_abs env doc r h2 hsimple
+  exact ⟨expectedCol env r, h1, e1, e2, e3, e4, rfl, rfl⟩
+
+/-! example: `Fry @-?olive oil |EVOO {= 1 1 / 2 % fl oz }(cold pressed) with @salt⏎in #pot.`, a blank
+    line, `~{10%min} later.`; the expected steps -/
+def C01_stepsExt : Ext := ⟨Gen.EXT_COMPONENT_MODIFIERS ||| Gen.EXT_COMPONENT_ALIAS⟩
+def C01_stepsEnv : Env := ⟨toyCharSpec, C01_stepsExt, fun _ => none, fun _ _ => .ok, fun c => [c], 0⟩
+def C01_exStepsDoc : List (List SegX × List Tok) :=
+  [([.text [tk .word "Fry".toList, tk .ws [' ']], .ingredient C01_exComp C01_exCPad,
+     .text [tk .ws [' '], tk .word "with".toList, tk .ws [' ']], .ingredient1 C01_exSalt,
+     .text [C01_nl, tk .word "in".toList, tk .ws [' ']], .cookware1 { name := [tk .word "pot".toList] },
+     .text [tk .dot ['.']]], [C01_nl, C01_nl]),
+   ([.timer C01_exTimerAnon {}, .text [tk .ws [' '], tk .word "later".toList, tk .dot ['.']]], [C01_nl])]
+
+example : C01_stepsEnv.ext.has Gen.EXT_ADVANCED_UNITS = false ∧ C01_stepsEnv.ext.has Gen.EXT_INLINE_QUANTITIES = false ∧
+    (∀ d ∈ C01_exStepsDoc, (DocItem.step d.1).ok C01_stepsEnv.cs C01_stepsEnv.ext = true) ∧
+    (∀ d ∈ C01_exStepsDoc, d.1.all SegX.simple = true) ∧ sepsOK (C01_exStepsDoc.map (·.2)) = true := by decide
+example : WellSpelled toyCharSpec (docSpec (stepsDoc C01_exStepsDoc)) := by decide
+example : (parseFrontmatter toyCharSpec (render (docSpec (stepsDoc C01_exStepsDoc)))).isNone = true := by decide
+example : absStepsFrom [] 1 (C01_exStepsDoc.map (·.1)) =
+    [.step ⟨[.text "Fry ".toList, .ingredient 0, .text " with ".toList, .ingredient 1, .text " in ".toList, .cookware 0,
+             .text ".".toList], 1⟩,
+     .step ⟨[.timer 0, .text " later.".toList], 2⟩] := by decide
+example : (absIngr (α := Rat) C01_exComp).name = "olive oil".toList ∧
+    (absIngr (α := Rat) C01_exComp).modifiers = ⟨Modifiers.HIDDEN ||| Modifiers.OPT⟩ ∧
+    (absIngr (α := Rat) C01_exComp).note = some "cold pressed".toList := by decide
+/-- `&`, `+`, a lock on a timer amount are outside the simple family -/
+example : SegX.simple (.ingredient1 { mods := [.and], name := [tk .word ['x']] }) = false ∧
+    SegX.simple (.ingredient1 { mods := [.plus], name := [tk .word ['x']] }) = false ∧
+    SegX.simple (.timer C01_exTimer {}) = false := by decide
+
+/-- The side condition "plain definition" of `C01_recipe_steps` in closed form: a component whose
+    modifier characters are among `@ - ?` (any number, any order; neither `&` nor `+`) carries
+    neither the REF nor the NEW flag. -/
+theorem C01_plain_modifiers (mods : List TK) (h : mods.all (fun k => k != .and && k != .plus) = true) :
+    plainMods (modsOf mods) := rtr_modsOf_plain mods h
+
+example : [TK.minus, .question, .at].all (fun k => k != .and && k != .plus) = true := by decide
+
+/-! ### well-spelledness of printed pieces: building blocks -/
+
+/-- `wellSpelledNext` (well spelled when followed by a given character) of a concatenation: the
+    look-ahead of the first part is the first character of the second part — or the outer
+    look-ahead when the second part prints nothing.  With it the well-spelledness of a spelled
+    component reduces to its pieces (marker, modifiers, name, braces, quantity, note), each with
+    the first character of what follows. -/
+theorem C01_well_spelled_next_append (cs : CharSpec) (nx : Option Char) (a b : List Tok) :
+    wellSpelledNext cs nx (a ++ b) = (wellSpelledNext cs ((render b).head?.or nx) a && wellSpelledNext cs nx b) :=
+  rtin_wellSpelledNext_append cs nx a b
+
+/-- The one-character tokens of the syntax (`@ # ~ { } ( ) % | : = ? + & / . ,` …: the kinds of the
+    lexer's single-character table) are well spelled whatever follows them: the seams after a
+    marker, a brace, `%`, `|`, `:` need no condition.
+    Partial with respect to the goal "printer output is well spelled in closed form": for the
+    multi-character kinds (words, integers, whitespace, `-`, `>`, comments, escapes) the condition
+    is `spellOK` itself, on the leaf tokens and the character after them; no closed form per leaf
+    family is given. -/
+theorem C01_well_spelled_marker_partial (cs : CharSpec) (k : TK) (c : Char) (nx : Option Char) (h : singleKind c = some k)
+    (hk : k ≠ .escaped ∧ k ≠ .metaStart ∧ k ≠ .textStep ∧ k ≠ .minus ∧ k ≠ .lineComment ∧ k ≠ .blockComment ∧
+      k ≠ .newline ∧ k ≠ .int ∧ k ≠ .zeroInt ∧ k ≠ .ws ∧ k ≠ .punct ∧ k ≠ .word) :
+    spellOK cs k [c] nx = true := rtin_spellOK_single cs k c nx h hk
+
+example : singleKind '@' = some .at ∧ singleKind '{' = some .openBrace ∧ singleKind '%' = some .percent := by decide
 
 end Cook
